@@ -449,7 +449,7 @@ func TestQuick(t *testing.T) {
 		run(rt, &Case{Data: drawData(rt, 3100), Mode: "kill-at-size", Big: rapid.Bool().Draw(rt, "big"), Frac: rapid.IntRange(0, 999).Draw(rt, "frac")})
 	})
 	fix.Check(t, "kill-at-size-big", 8, func(rt *rapid.T) {
-		spec := gen.DataSpec{Recipe: &gen.Recipe{N: 40000, Cols: []gen.ColSpec{
+		spec := gen.DataSpec{Recipe: &gen.Recipe{N: rapid.SampledFrom([]int{40000, 90000}).Draw(rt, "bign"), Cols: []gen.ColSpec{
 			{Name: "u", Prefix: "row-number-", Kind: gen.KUnique}, {Name: "a", Kind: gen.KMod, K: 7, Prefix: "v"}}}}
 		run(rt, &Case{Data: spec, Mode: "kill-at-size", Big: rapid.Bool().Draw(rt, "big"), Frac: rapid.IntRange(0, 999).Draw(rt, "frac")})
 	})
@@ -478,7 +478,7 @@ func TestThorough(t *testing.T) {
 		run(rt, &Case{Data: drawData(rt, 3100), Mode: "kill-at-size", Big: rapid.Bool().Draw(rt, "big"), Frac: rapid.IntRange(0, 999).Draw(rt, "frac")})
 	})
 	fix.Check(t, "kill-at-size-big", 40, func(rt *rapid.T) {
-		spec := gen.DataSpec{Recipe: &gen.Recipe{N: 40000, Cols: []gen.ColSpec{
+		spec := gen.DataSpec{Recipe: &gen.Recipe{N: rapid.SampledFrom([]int{40000, 90000, 150000}).Draw(rt, "bign"), Cols: []gen.ColSpec{
 			{Name: "u", Prefix: "row-number-", Kind: gen.KUnique}, {Name: "a", Kind: gen.KMod, K: 7, Prefix: "v"}}}}
 		run(rt, &Case{Data: spec, Mode: "kill-at-size", Big: rapid.Bool().Draw(rt, "big"), Frac: rapid.IntRange(0, 999).Draw(rt, "frac")})
 	})
